@@ -123,7 +123,7 @@ def main(run):
     proof_ok = run.prove(PROP_FILE, CORR)
     shoot = run.build_shoot()
     run.replay_findings(finding_handlers(run, shoot))
-    npairs = 300 if run.thorough() else 48
+    npairs = 600 if run.thorough() else 84
     pairs = []
     for i in range(npairs):
         spec = gen_pair(run, i)
